@@ -930,11 +930,32 @@ def check_inplace(ctx, rep, rule='C11.W', only=None):
             if only is not None and not only(m, fn):
                 continue
             aliases: Dict[str, ast.AST] = {}
+            alias_defs: Dict[str, list] = {}
+            other_defs: Dict[str, list] = {}
             for st in ast.walk(fn):
                 if isinstance(st, ast.Assign) and len(st.targets) == 1 and isinstance(st.targets[0], ast.Name):
                     v = st.value
                     if isinstance(v, ast.Attribute) and v.attr == 'tensor' and self_attr(v) is None:
                         aliases[st.targets[0].id] = v.value
+                        alias_defs.setdefault(st.targets[0].id, []).append(st)
+                    else:
+                        other_defs.setdefault(st.targets[0].id, []).append(st)
+            # a name that is also bound to something else (a dict, a list …) is an alias of the tensor only where the alias definition reaches (flow-sensitive)
+            _cfg = None
+
+            def alias_reaches(name, st):
+                nonlocal _cfg
+                if name not in other_defs:
+                    return True
+                try:
+                    if _cfg is None:
+                        _cfg = CFG(fn)
+                    node = _cfg.node_of(st)
+                    dn = [_cfg.node_of(d) for d in alias_defs[name]]
+                    on = [_cfg.node_of(d) for d in other_defs[name]]
+                except KeyError:
+                    return True
+                return any(node.id in _cfg.reachable_after(d, {x.id for x in on}) for d in dn)
             writes = []
             for st in ast.walk(fn):
                 tgt = None
@@ -948,7 +969,7 @@ def check_inplace(ctx, rep, rule='C11.W', only=None):
                 owner = None
                 if isinstance(base, ast.Attribute) and base.attr == 'tensor' and self_attr(base) is None:
                     owner = base.value
-                elif isinstance(base, ast.Name) and base.id in aliases and isinstance(tgt, ast.Subscript):
+                elif isinstance(base, ast.Name) and base.id in aliases and isinstance(tgt, ast.Subscript) and alias_reaches(base.id, st):
                     owner = aliases[base.id]
                 if owner is not None:
                     writes.append((st, owner))
@@ -968,7 +989,7 @@ def check_inplace(ctx, rep, rule='C11.W', only=None):
                 owner = None
                 if isinstance(recv, ast.Attribute) and recv.attr == 'tensor' and self_attr(recv) is None:
                     owner = recv.value
-                elif isinstance(recv, ast.Name) and recv.id in aliases:
+                elif isinstance(recv, ast.Name) and recv.id in aliases and alias_reaches(recv.id, st):
                     owner = aliases[recv.id]
                 elif name == 'copy_' and self_attr(recv) is not None and pc is not None:
                     ci = ctx.classes.classes.get(f"{m.name}.{pc.name}")
